@@ -365,7 +365,8 @@ const Quaternion<T,B> sqrt (const Quaternion<T,B>& h)
 template<typename T>
 const Quaternion<T,Unitary> eigen (const Quaternion<T,Hermitian>& q)
 {
-  T p = norm( q.get_vector() );
+  // the polarization, without squaring components that may be tiny or huge
+  T p = hypot( q.s1, hypot( q.s2, q.s3 ) );
 
   // a multiple of the identity is already diagonal
   if (p == 0)
